@@ -37,6 +37,28 @@ const READ_TIMEOUT: Duration = Duration::from_secs(15);
 /// Write timeout for outbound messages.
 const WRITE_TIMEOUT: Duration = Duration::from_secs(15);
 
+#[cfg(not(feature = "verif"))]
+#[inline]
+fn read_timeout() -> Duration {
+    READ_TIMEOUT
+}
+
+#[cfg(not(feature = "verif"))]
+#[inline]
+fn write_timeout() -> Duration {
+    WRITE_TIMEOUT
+}
+
+#[cfg(feature = "verif")]
+fn read_timeout() -> Duration {
+    crate::verif::kad_executor_timeout().unwrap_or(READ_TIMEOUT)
+}
+
+#[cfg(feature = "verif")]
+fn write_timeout() -> Duration {
+    crate::verif::kad_executor_timeout().unwrap_or(WRITE_TIMEOUT)
+}
+
 /// Faulure reason.
 #[derive(Debug)]
 pub enum FailureReason {
@@ -121,7 +143,7 @@ impl QueryExecutor {
         mut substream: Substream,
     ) {
         self.futures.push(Box::pin(async move {
-            match tokio::time::timeout(WRITE_TIMEOUT, substream.send_framed(message)).await {
+            match tokio::time::timeout(write_timeout(), substream.send_framed(message)).await {
                 // Timeout error.
                 Err(_) => QueryContext {
                     peer,
@@ -160,7 +182,7 @@ impl QueryExecutor {
         mut substream: Substream,
     ) {
         self.futures.push(Box::pin(async move {
-            match tokio::time::timeout(WRITE_TIMEOUT, substream.send_framed(message)).await {
+            match tokio::time::timeout(write_timeout(), substream.send_framed(message)).await {
                 // Timeout error.
                 Err(_) => QueryContext {
                     peer,
@@ -190,7 +212,7 @@ impl QueryExecutor {
         mut substream: Substream,
     ) {
         self.futures.push(Box::pin(async move {
-            match tokio::time::timeout(READ_TIMEOUT, substream.next()).await {
+            match tokio::time::timeout(read_timeout(), substream.next()).await {
                 Err(_) => QueryContext {
                     peer,
                     query_id,
@@ -223,7 +245,7 @@ impl QueryExecutor {
         mut substream: Substream,
     ) {
         self.futures.push(Box::pin(async move {
-            match tokio::time::timeout(WRITE_TIMEOUT, substream.send_framed(message)).await {
+            match tokio::time::timeout(write_timeout(), substream.send_framed(message)).await {
                 // Timeout error.
                 Err(_) => {
                     return QueryContext {
@@ -249,7 +271,7 @@ impl QueryExecutor {
                 Ok(Ok(())) => (),
             };
 
-            match tokio::time::timeout(READ_TIMEOUT, substream.next()).await {
+            match tokio::time::timeout(read_timeout(), substream.next()).await {
                 Err(_) => QueryContext {
                     peer,
                     query_id,
@@ -286,7 +308,7 @@ impl QueryExecutor {
         mut substream: Substream,
     ) {
         self.futures.push(Box::pin(async move {
-            match tokio::time::timeout(WRITE_TIMEOUT, substream.send_framed(message)).await {
+            match tokio::time::timeout(write_timeout(), substream.send_framed(message)).await {
                 // Timeout error.
                 Err(_) => {
                     return QueryContext {
@@ -314,7 +336,7 @@ impl QueryExecutor {
 
             // Ignore the read result (including errors).
             if let Ok(Some(Ok(message))) =
-                tokio::time::timeout(READ_TIMEOUT, substream.next()).await
+                tokio::time::timeout(read_timeout(), substream.next()).await
             {
                 QueryContext {
                     peer,
